@@ -367,7 +367,11 @@ struct NavRun {
         ps.guard_lookups = false;       // the model only issues lookups inside object frames
         ps.use_cb = !plan.P("nocb");
         if (plan.P("extw")) {
-            size_t capn = plan.doc.size() * 8 + 256;
+            // "always large enough": every to_writer of the history may append (at most) the whole document - restarts allow the
+            // same container to be extracted again and again. (A fixed 8 x |doc| was a false alarm of the thorough tier: nine
+            // extractions of a 1.9 KB container after nine restarts legitimately overflowed it.)
+            size_t n_tw = 0; for (auto &o : plan.ops) if (o.code == M_TO_WRITER) n_tw++;
+            size_t capn = plan.doc.size() * (n_tw + 1) + 256;
             xw_blk = block_alloc(sizeof(binson_writer), 0); xw_dest = block_alloc(capn, 0); memset(xw_dest.p, 0xA5, capn);
             xw = (binson_writer *)xw_blk.p; binson_writer_init(xw, xw_dest.p, capn);
             ps.ext_writer = xw;
